@@ -1,8 +1,30 @@
 (* C04 — TryEval answers are never contradicted by fetching more variables.
-   Statements about `trysem`, the tree-level meaning of TryEval (tied to the Go TryEval and to the model of its
-   loop `tryrun` by the correspondence); proofs in Proofs/TrySound.v. *)
-Require Import Base Opcode Tables Ops Tree Opt Flat Run TryFacts TrySound.
+   `tryeval` / `eval` are the models of Expr.TryEval / Expr.Eval run on the compiled flat program (compared with the
+   Go functions on Go's own programs on every run); `trysem` / `sem` are their tree-level meanings.
+   Proofs in Proofs/TryCorrect.v (machine level), EvalTop.v, TrySound.v. *)
+Require Import Base Opcode Tables Ops Tree Opt Flat Run TryFacts TrySound EvalDefs EvalTop TryCorrect.
 Open Scope Z_scope.
+
+(* the TryEval loop on the compiled program computes exactly `trysem`: value or the very error, the fetches of
+   available variables and the operator applications, in order; no panic, no fuel exhaustion — for every tree,
+   fetcher, operator table and availability predicate *)
+Theorem C04_tryeval_is_trysem : forall fetch custom cached t,
+  tryeval fetch custom cached (compile t) = sem_obs (trysem fetch custom cached t).
+Proof. exact tryrun_compile_correct. Qed.
+
+(* machine level: a definite answer of TryEval on the compiled program is the value Eval of the compiled program
+   returns under EVERY completion of the unavailable variables for which Eval returns a value *)
+Theorem C04_sound_compiled : forall custom fetch cached fetch',
+  (forall n k, cached n k = true -> fetch' n k = fetch n k) ->
+  forall t tr tr' v v', tryeval fetch custom cached (compile t) = (tr, MVal v) ->
+    eval fetch' custom (compile t) = (tr', MVal v') -> v = VDNE \/ v = v'.
+Proof.
+  intros custom fetch cached fetch' Hc t tr tr' v v' H1 H2.
+  rewrite tryrun_compile_correct in H1. rewrite run_compile_correct in H2. unfold sem_obs in *.
+  apply (try_sound custom fetch cached fetch' Hc t v v').
+  - destruct (snd (trysem fetch custom cached t)); inversion H1; reflexivity.
+  - destruct (snd (sem fetch' custom t)); inversion H2; reflexivity.
+Qed.
 
 (* a definite answer (v <> VDNE) of TryEval under availability `cached` is the value Eval returns under EVERY
    completion fetch' of the unavailable variables for which Eval succeeds — for every tree, hence for
@@ -46,5 +68,7 @@ Example C04_ex :
   = Ok (VBool false).
 Proof. vm_compute. reflexivity. Qed.
 
+Print Assumptions C04_tryeval_is_trysem.
+Print Assumptions C04_sound_compiled.
 Print Assumptions C04_sound.
 Print Assumptions C04_monotone.
